@@ -29,6 +29,10 @@ def scenarios(tier):
     # a query that has to write (redo-ood forgetting a target whose file was removed) against a build
     L.append((SC.scn("db-removed-target-ood+build", w["two"], ["redo-ood", "redo-ifchange y"],
                      setup=[["ifchange", ["x", "y"]], ["rm", "x"], ["edit", "s", "1"]], visible=VIS), 1 if q else 2))
+    # `redo F` for a file that exists and that redo has never heard of (a source, a script): refused with a message -- a
+    # row is written for it all the same, next to another command's writes
+    L.append((SC.scn("db-redo-of-unknown-existing-file+build", w["two"], ["redo --no-log y.do", "redo-ifchange y"], setup=pre, visible=VIS), 1 if q else 2))
+    L.append((SC.scn("first-redo-of-unknown-existing-file+build", w["two"], ["redo --no-log s y.do", "redo-ifchange x"], visible=VIS), 1 if q else 2))
     # (c) builds that share a dependency / the same target
     L.append((SC.scn("db-shared-dep", w["shared"], ["redo-ifchange t1", "redo-ifchange t2"],
                      setup=[["ifchange", ["t1", "t2"]], ["edit", "s", "1"]], visible=VIS), 1 if q else 2))
